@@ -22,8 +22,20 @@ PROP = dict(race_binary=True,
          "the connection lost inside the initialisation window (init=close0|close2|overlimit|stall: the panel closes / sends a 500000 header / stalls a frame; "
          "Connect must fail), the complete answer followed at once by the close (init=fullclose, compare-only: either result accepted), messages with flow "
          "field ACK that carry an event / identity / a ping (must be processed). "
+         "QUIET PERIODS (class 12): 2.2-4 s of silence from the panel (longer than the reader's 2 s payload deadline and two heartbeat periods) right after the "
+         "initial answer / after an event / after a ping-ack exchange / after handler feedback / twice in a row / at the very end / at random places of random "
+         "histories, both modes, with a panel that leaves the client's 1 s heartbeat pings unanswered (pa=0: real silence on the socket) and one that acknowledges "
+         "them (pa=1); what follows the silence must be dispatched exactly once and the client must not end the connection (Spec clause "
+         "connection_dropped_without_cause on the panel-side observation closed=1). "
+         "Stopping rule of one run (harness, no verdict): listen until the log and the ack count reach what a loss-free run produces and 700 ms of quiet show "
+         "nothing extra follows, or the client has closed the connection, or nothing at all happened for 3 s, or 12 s have passed (cut=count|closed|quiet|deadline; "
+         "the last two are tagged B:cut=...). Acceptances that go either way are tagged in the evidence: B:undecided (all four items sent and the panel closed at once), "
+         "B:prefix-accepted=<n> (n events sent right before an over-limit header, without a pause >= 250 ms, were not dispatched; at most the incoming queue's capacity "
+         "may be missing, everything before a truncated frame is demanded), B:tol:slow (last invocation later than the scripted pauses + 5 s; no verdict). "
          "EQ = Connect's result, invocation log, ack "
-         "count and final state equal the model's (Gorwp.connect true / dispatchDyn over readerView / acks / finalState of the code as it is; VERIF_C19_MODEL=pinned selects the model of the "
+         "count and final state equal the model's and the connection is still open (Gorwp.connect true / dispatchDyn over readerView / acks / finalState of the code as it is; "
+         "when a broken frame ends the connection: a prefix of the model's log that contains everything but the last gorwpFromPanelCap event messages, "
+         "everything if the frame was truncated; VERIF_C19_MODEL=pinned selects the model of the "
          "pinned code for replays of the old findings); H = Spec/GorwpSpec.lean on the observation; distinct = distinct script text",
     trusted_base=["Go scheduler, memory model (data races are looked for with the runtime's map check and, thorough, -race: supporting evidence only), "
                   "kernel TCP and the wall clock are outside the model",
@@ -50,7 +62,15 @@ CLAIM = dict(
          "with the over-limit branch returning nothing after a broken frame is ever dispatched and every message before it is "
          "dispatched at most once in order; with the writer decoupled from the dispatcher a blocked dispatcher is always released, no state with pending events is stuck, "
          "every non-ticker step decreases a progress measure, and every run that is strongly fair to reader, dispatcher and writer eventually has dispatched exactly the "
-         "messages before the first broken frame (C19.all_dispatched_eventually). Refuted by concrete executions for the pinned code "
+         "messages before the first broken frame (C19.all_dispatched_eventually); when the reader has stopped at a broken frame at most the incoming queue's capacity of "
+         "messages is undispatched (C19.at_most_queue_capacity_lost_at_broken_frame). (c) For a timed LTS of the reader's read deadlines with every SetReadDeadline call "
+         "site as configuration (the configuration `coded` and the constants - 2 s payload deadline, 1 s heartbeat, 2 s initialisation window, probe deadline - are "
+         "regenerated from the source by the extractor, including WHERE the resets sit): in every reachable state in which the reader waits for a header or line no deadline "
+         "is armed, so no silence of the panel ends the connection (C19.quiet_period_harmless for every configuration with the header reset, "
+         "C19.quiet_period_harmless_coded with C19.coded_resets_in_place for the code); the timeout fires only inside a frame whose payload is 2 s late "
+         "(C19.expire_only_inside_late_frame); with the reset hoisted out of the frame loop 2 s of silence after a frame end the connection "
+         "(C19.reset_hoisted_counterexample) but only a real silence does - a panel acknowledging the 1 s heartbeat hides it (C19.hoisted_reset_needs_silence); the initialisation "
+         "window of the property text equals the constant of init (C19.init_window_is_the_documented_one). Refuted by concrete executions for the pinned code "
          "(C19.overlimit_keeps_parsing_counterexample, C19.queue_self_deadlock_counterexample with the blocked state permanent, "
          "C19.connect_pinned_success_on_lost_connection_counterexample: Connect returned success whenever the connection was lost inside the initialisation window, "
          "C19.ack_message_with_event_dropped_counterexample: the binary reader dropped an ACK message together with an event it carried; all four repaired by fix: commits). Tie to the code: the real client is run against "
@@ -58,7 +78,8 @@ CLAIM = dict(
          "the independent monitors.",
     note=TB + "PARTIAL: proof of the dispatch logic and of the queue/reader LTS over all interleavings + trace validation against the real "
          "client. Outside the model: the Go scheduler (liveness is proved under strong fairness of the three goroutines), the Go memory model (the Bind*/dispatch data race is invisible to the LTS; it shows as "
-         "a runtime crash `concurrent map read and map write` in a child process and under -race), kernel TCP, real time (2 s window, 10 ms poll and 5 s "
-         "burst bound are checked on runs with tolerances), JSON parsing of the topology, the ASCII converters.",
+         "a runtime crash `concurrent map read and map write` in a child process and under -race), kernel TCP, JSON parsing of the topology, the ASCII converters. Real time: the read deadlines are modelled at the granularity of whole headers / payloads / lines "
+         "(c) and exercised by the quiet-period scripts; the 2 s initialisation window is checked on runs (Connect must not fail earlier; an item 2.5 s late must not count); the 10 ms poll "
+         "is outside; harness tolerances (250 ms settle margin before an over-limit header, 700 ms / 3 s listening rule, 5 s slowness tag) cannot turn into a verdict against a library that loses nothing.",
     technique="Lean 4 pure model + induction over histories; LTS with inductive invariants, progress measure and fair infinite runs; decide counterexamples; trace validation on the real client",
 )
